@@ -42,27 +42,48 @@ func (eq equator) equalMessage(mx, my pref.Message) bool {
 		return false
 	}
 
-	nx := 0
 	equal := true
 	mx.Range(func(fd pref.FieldDescriptor, vx pref.Value) bool {
-		nx++
 		vy := my.Get(fd)
-		equal = my.Has(fd) && eq.equalField(fd, vx, vy)
+		switch {
+		case my.Has(fd):
+			equal = eq.equalField(fd, vx, vy)
+		case eq.zeroComparable(fd):
+			// y holds the zero value, a value comparer may still accept the pair (0 is within 0.5 of 0.3)
+			equal = eq.equalValue(fd, vx, vy)
+		default:
+			equal = false
+		}
 		return equal
 	})
 	if !equal {
 		return false
 	}
-	ny := 0
-	my.Range(func(fd pref.FieldDescriptor, vx pref.Value) bool {
-		ny++
-		return true
+	// fields only y has populated
+	my.Range(func(fd pref.FieldDescriptor, vy pref.Value) bool {
+		switch {
+		case mx.Has(fd):
+			// compared above
+		case eq.zeroComparable(fd):
+			equal = eq.equalValue(fd, mx.Get(fd), vy)
+		default:
+			equal = false
+		}
+		return equal
 	})
-	if nx != ny {
+	if !equal {
 		return false
 	}
 
 	return eq.equalUnknown(mx.GetUnknown(), my.GetUnknown())
+}
+
+// zeroComparable reports whether a field that is populated in only one of two messages is still compared by value:
+// a singular field without presence reads as its zero value when it is not populated, and a configured value
+// comparer decides whether the zero value is equivalent to the other side's.
+// Without a value comparer a populated field never equals an unpopulated one, as in proto.Equal.
+func (eq equator) zeroComparable(fd pref.FieldDescriptor) bool {
+	return eq.cmpValue != nil && !fd.HasPresence() && !fd.IsList() && !fd.IsMap()
 }
 
 // equalField compares two fields.
